@@ -10,20 +10,24 @@ Definition scallf (cm : catchfn) (funs : list fundef) (clos : list clodef) (n : 
       match find_fun funs f with
       | None => Some (EX (err "undefined function"), g)
       | Some d =>
-          match sexec cm funs clos n (fun_vars d) f (fbody d) (sbind_params (fun_vars d) (fparams d) avs (sfresh (fun_vars d)), []) g with
-          | Fuel => None
-          | Res c _ g' => Some (call_result c, g')
-          end
+          if enough_args (fparams d) avs then
+            match sexec cm funs clos n (fun_vars d) f (fbody d) (sbind_params (fun_vars d) (fparams d) avs (sfresh (fun_vars d)), []) g with
+            | Fuel => None
+            | Res c _ g' => Some (call_result c, g')
+            end
+          else Some (EX (VErr "too few arguments"), g)
       end
   | CClo id oid cap =>
       match nth_error clos id with
       | None => Some (EX (VErr "no such closure"), g)
       | Some cd =>
-          match sexec cm funs clos n (clo_vars cd) (clo_name oid) (cbody cd)
-                  (sbind_captured (clo_vars cd) cap (sbind_params (clo_vars cd) (cparams cd) avs (sfresh (clo_vars cd))), []) g with
-          | Fuel => None
-          | Res c _ g' => Some (call_result c, g')
-          end
+          if enough_args (cparams cd) avs then
+            match sexec cm funs clos n (clo_vars cd) (clo_name oid) (cbody cd)
+                    (sbind_captured (clo_vars cd) cap (sbind_params (clo_vars cd) (cparams cd) avs (sfresh (clo_vars cd))), []) g with
+            | Fuel => None
+            | Res c _ g' => Some (call_result c, g')
+            end
+          else Some (EX (VErr "too few arguments"), g)
       end
   end.
 
